@@ -100,6 +100,14 @@ func validateUnconnectedProcessors(flow *FlowDirection) error {
 // detectCircularConnections detects circular connections in the flow graph.
 func detectCircularConnections(flowDir *FlowDirection) error {
 	if flowDir.GetFlowType().IsResponseType() && !flowDir.HasValidRoot() {
+		// A root-less response direction is entered from the connection of an
+		// early-response processor, so every node can be the start of a walk.
+		for _, node := range flowDir.nodes {
+			visitedByCondition := make(map[string]map[string]bool)
+			if !dfsDetectCycles(node, visitedByCondition, node.processorKey, "") {
+				return fmt.Errorf("circular connection detected - processor '%s'", node.processorKey)
+			}
+		}
 		return nil
 	}
 
